@@ -23,9 +23,27 @@ Definition scalar_tok (t : tok) : Prop := match t with KTag g => scalar_tag g | 
 
 Definition is_reprocess (r : presult) : bool := match r with Reprocess _ _ => true | _ => false end.
 
+(* the EncodingIndicator result (C19): [enc_from t l] - the token is a start tag of the charset / http-equiv arm of
+   the "in head" rules and l is the label it declares *)
+Definition enc_from (t : tok) (l : str) : Prop :=
+  exists g, t = KTag g /\ tg_kind g = StartTag /\ head_matches t (nth 4 heads_in_head []) = true /\ model_label g = Some l.
+
+Definition is_enc_probe (ev : event) : bool :=
+  match ev with EvArm 30 49 | EvArm 30 50 => true | _ => false end.
+(* [enc_tail t s l]: the most recent indicator probe of the trace comes right after the insertion of the HTML element
+   created for the tag t, with its name and attributes (the name is meta unless deviation 7 is on) *)
+Definition enc_tail (t : tok) (s : st) (l : str) : Prop :=
+  exists post k h name attrs,
+    name = qn_elem ns_html (tname t) /\ attrs = tg_attrs (tk_tag t) /\
+    (exists older, out s = post ++ EvArm 30 k :: older /\
+       exists ins mid tm ip dup older', older = EvOp ins :: mid ++ EvOp (OpCreateElement h name attrs tm ip dup) :: older' /\
+                                        inserts ins (inl h)) /\
+    forallb (fun ev => negb (is_enc_probe ev)) post = true /\ (k = 49 \/ k = 50) /\
+    (dev_on s 7 = false -> tname t = nm "meta").
+
 (* a reprocessed token is the token itself (every arm of rules.rs passes its `token` on) *)
 Definition same_tok (t : tok) (r : presult) : Prop :=
-  match r with Reprocess _ t' | ReprocessForeign t' => t' = t | _ => True end.
+  match r with Reprocess _ t' | ReprocessForeign t' => t' = t | PEncoding l => enc_from t l | _ => True end.
 (* results a character token can produce (the asserts of process_to_completion rest on it) *)
 Definition chars_ok (t : tok) (r : presult) : Prop :=
   is_chars t = true ->
@@ -36,14 +54,15 @@ Definition chars_ok (t : tok) (r : presult) : Prop :=
 Definition res_ok (t : tok) (r : presult) : Prop := same_tok t r /\ chars_ok t r.
 
 (* the invariant after the step, read with the mode the loop is about to set *)
-Definition TInvR (r : presult) (s' : st) : Prop :=
+Definition TInvR (t : tok) (r : presult) (s' : st) : Prop :=
   match r with
   | Reprocess m _ => TInv (set_mode m s') /\ m <> Text
   | ReprocessForeign _ => False
+  | PEncoding l => TInv s' /\ enc_tail t s' l
   | _ => TInv s'
   end.
 
-Definition step_post (t : tok) (r : presult) (s' : st) : Prop := TInvR r s' /\ res_ok t r.
+Definition step_post (t : tok) (r : presult) (s' : st) : Prop := TInvR t r s' /\ res_ok t r.
 
 (* ---------- enumeration of the arms ---------- *)
 Lemma wp_arm_dispatch mid heads bodies t (Q : presult -> st -> Prop) s :
